@@ -5,6 +5,7 @@ from .core import (Err, Viol, Panic, Fatal, CErr, HostErr, Outcome, veq, run_uni
 
 ERR = ('ERR',)            # expectation: an error value (message unspecified)
 UNSPEC = ('UNSPEC',)      # expectation: any value or error, but no panic / abort / violation
+NOTVAL = 'NOTVAL'     # an error value or a limit violation, never a value
 ANYVAL = ('ANYVAL',)      # expectation: some value (not an error)
 
 
@@ -37,6 +38,8 @@ def judge(exp, out):
         return False, 'rejected:' + v.cls
     if isinstance(v, HostErr):
         return False, 'host-error'
+    if exp is NOTVAL or exp == NOTVAL:
+        return (True, '') if isinstance(v, (Err, Viol)) else (False, 'value-should-be-error-or-violation')
     if isinstance(v, Viol):
         if isinstance(exp, Viol) and exp == v:
             return True, ''
